@@ -409,6 +409,9 @@ func HarnessC04Compile() {
 	vfAssert(program != nil, "c04.compile.no-error-means-a-program")
 	// run it on an environment with nil members and a panicking function
 	e := &vfEnv{A: vfInt("A"), B: vfInt("B"), P: vfBool("P"), S: "a", Xs: []int{vfInt("x0")}}
+	if strings.Contains(src, "..") {
+		vfAssume(e.A >= -1 && e.A <= 3) // run-time ranges are unrolled: keep them short
+	}
 	e.Fn = func(x int) int { panic("boom") }
 	if vfBool("ptr") {
 		e.Ptr = &vfNode{V: 1}
